@@ -94,12 +94,106 @@ fn c05_strategy(_tier: Tier) -> BoxedStrategy<Case> {
     Union::new_weighted(vec![(6, mk(2, 30)), (2, mk(3, 30)), (2, mk(1, 10))]).boxed()
 }
 
+/// Deterministic sweep through the top-level searcher: pattern sets that
+/// select the packed prefilter in its slim (8 patterns) and fat (40 patterns)
+/// flavour with shortest pattern 2, 3 and 4 bytes, every haystack length
+/// 0..=100, a pattern planted at every offset, prefilter on vs off vs model.
+fn c05_extra(tier: Tier, _seed: u64, total: &mut Ctx) -> Result<bool, crate::runner::Violation> {
+    use crate::case::{Engine, Sk};
+    let max_len = if tier == Tier::Thorough { 140 } else { 100 };
+    let mut tasks: Vec<(Vec<Vec<u8>>, Cfg)> = Vec::new();
+    for npats in [8usize, 40] {
+        for minlen in [2usize, 3, 4] {
+            // distinct first bytes, bytes chosen so that neighbouring
+            // positions do not look like first bytes of the same bucket
+            let pats: Vec<Vec<u8>> = (0..npats)
+                .map(|i| {
+                    let a = b'a' + (i % 26) as u8;
+                    let b = b'0' + (i % 10) as u8;
+                    let c = b'A' + ((i * 7) % 26) as u8;
+                    let mut p = vec![a, b, c, b'#', a, b'%'];
+                    p.truncate(if i == 0 { minlen } else { minlen + (i % 3) });
+                    if i >= 26 {
+                        p[0] = 0x80 + i as u8;
+                    }
+                    p
+                })
+                .collect();
+            for mk in [Mk::LeftmostFirst, Mk::LeftmostLongest] {
+                for engine in [Engine::TopDfa, Engine::TopC] {
+                    tasks.push((pats.clone(), Cfg { engine, mk, sk: Sk::Unanchored, prefilter: true, dense_depth: 2, byte_classes: true, casei: false }));
+                }
+            }
+        }
+    }
+    let results: Vec<(Ctx, Option<crate::runner::Violation>)> = std::thread::scope(|sc| {
+        let hs: Vec<_> = tasks
+            .iter()
+            .map(|(pats, cfg)| {
+                sc.spawn(move || {
+                    let mut ctx = Ctx::default();
+                    let mk_case = |hay: Vec<u8>, span: (usize, usize)| Case { prop: "C05".into(), sub: "sweep".into(), cfg: cfg.clone(), patterns: pats.clone(), haystack: hay, span, ..Case::default() };
+                    let on = match Searcher::build(cfg, pats) {
+                        Ok(s) => s,
+                        Err(e) => return (ctx, Some(crate::runner::Violation { case: mk_case(vec![], (0, 0)), reason: e })),
+                    };
+                    let off = match Searcher::build(&Cfg { prefilter: false, ..cfg.clone() }, pats) {
+                        Ok(s) => s,
+                        Err(e) => return (ctx, Some(crate::runner::Violation { case: mk_case(vec![], (0, 0)), reason: e })),
+                    };
+                    let pc = prefilter_class(cfg, pats);
+                    for len in 0..=max_len {
+                        for (pi, p) in pats.iter().enumerate().take(6) {
+                            if p.len() > len {
+                                continue;
+                            }
+                            for off_ in 0..=(len - p.len()) {
+                                let mut h = vec![b'Z'; len];
+                                h[off_..off_ + p.len()].copy_from_slice(p);
+                                // full span and one span that starts 7 bytes in
+                                for span in [(0usize, len), (7.min(len), len)] {
+                                    let occ = Occ::new(pats, &h, false);
+                                    let want = occ.find(cfg.mk, span.0, span.1, false);
+                                    for (name, s) in [("prefilter(true)", &on), ("prefilter(false)", &off)] {
+                                        let got = guard(|| s.try_find(input(&h, span, false, false)));
+                                        let ok = matches!(&got, Ok(Ok(g)) if *g == want);
+                                        if !ok {
+                                            let case = mk_case(h.clone(), span);
+                                            return (ctx, Some(crate::runner::Violation { case, reason: format!("sweep ({}, pattern {} planted at {}): {}: expected {:?}, got {:?}", pc, pi, off_, name, want, got.map(|r| r.map_err(|e| e.to_string()))) }));
+                                        }
+                                    }
+                                    ctx.evals += 1;
+                                    ctx.enumerated += 1;
+                                }
+                            }
+                        }
+                    }
+                    ctx.class(&format!("sweep:prefilter:{}", pc));
+                    (ctx, None)
+                })
+            })
+            .collect();
+        hs.into_iter().map(|h| h.join().expect("sweep thread")).collect()
+    });
+    let mut violation = None;
+    for (c, v) in results {
+        total.merge(c);
+        if violation.is_none() {
+            violation = v;
+        }
+    }
+    match violation {
+        Some(v) => Err(v),
+        None => Ok(true),
+    }
+}
+
 pub const C05: PropDef = PropDef {
     id: "C05",
     rule: "pattern lists shaped to select each prefilter variant (single pattern -> memmem; <=3 ASCII first bytes -> start-bytes 1/2/3; >3 first bytes with <=3 rare bytes at interior offsets incl. offsets 240..254 -> rare-bytes 1/2/3; \
 >=3 first bytes, min len >= 2, <=16 patterns, leftmost kind -> packed/Teddy) plus unconstrained lists; haystacks of 0..4K bytes built from whole/partial/altered patterns, lone candidate bytes and candidate-free runs; random spans; case-insensitive mix. \
 For each case the same searcher is built with prefilter(true) and prefilter(false); find, find_iter, overlapping steps + iterator (resumed searches), is_match are compared with the reference model on both (hence with each other); earliest mode is checked with the C14 validity predicate on both. \
-The selected variant is read from the Debug output of Automaton::prefilter() for classification only. \
+A deterministic sweep (enumerated) drives pattern sets that select the packed prefilter in its slim (8 patterns) and fat (40 patterns) flavour with shortest pattern 2/3/4 bytes through the top-level searcher: every haystack length 0..100 x 6 patterns x every plant offset x {full span, span starting 7 bytes in} x prefilter on/off vs the model. The selected variant is read from the Debug output of Automaton::prefilter() for classification only. \
 Non-trivial = a prefilter was selected, the span contains a candidate byte position where no occurrence starts, and at least one occurrence exists. Distinct = distinct case fingerprint.",
     assumptions: &[
         "earliest-mode results are specified only as a validity predicate (C14); a packed prefilter legitimately returns the full leftmost match in earliest mode, so on/off equality is not demanded there",
@@ -109,7 +203,7 @@ Non-trivial = a prefilter was selected, the span contains a candidate byte posit
     cases_thorough: 3_000_000,
     strategy: c05_strategy,
     check: c05_check,
-    extra: None,
+    extra: Some(c05_extra),
     floors: &[
         ("prefilter:Memmem", 500),
         ("prefilter:StartBytesOne", 500),
@@ -313,6 +407,26 @@ fn c10_check(case: &Case, ctx: &mut Ctx) -> Result<(), String> {
         if e0 > s0 {
             routes.push(("range(s..=e-1)", Input::new(hay).range(s0..=e0 - 1)));
         }
+        {
+            use std::ops::Bound::{Excluded, Included, Unbounded};
+            if s0 >= 1 {
+                routes.push(("range((Excluded(s-1), Excluded(e)))", Input::new(hay).range((Excluded(s0 - 1), Excluded(e0)))));
+                if e0 == hay.len() {
+                    routes.push(("range((Excluded(s-1), Unbounded))", Input::new(hay).range((Excluded(s0 - 1), Unbounded))));
+                }
+                if e0 > s0 {
+                    routes.push(("set_range((Excluded(s-1), Included(e-1)))", {
+                        let mut i = Input::new(hay);
+                        i.set_range((Excluded(s0 - 1), Included(e0 - 1)));
+                        i
+                    }));
+                }
+            }
+            routes.push(("range((Included(s), Excluded(e)))", Input::new(hay).range((Included(s0), Excluded(e0)))));
+            if s0 == 0 {
+                routes.push(("range((Unbounded, Excluded(e)))", Input::new(hay).range((Unbounded, Excluded(e0)))));
+            }
+        }
         for (name, inp) in routes {
             let got = guard(|| inp.get_span()).map_err(|p| format!("R5: building the input via {} panicked: {}", name, p))?;
             if got != want {
@@ -425,7 +539,7 @@ R1 search(h, s..e) == shift(search(h[s..e]), s) for find / earliest / iter / ove
 R3 every reported match lies inside the span; R4 start = end+1 yields nothing; R5 every way of establishing the same span on an Input (span, range, set_span, set_start/set_end, open-ended set_range after narrowing) gives the same span and result; R1-R3 also for packed::Searcher::find_in in both match kinds, each forced algorithm variant, on the pattern list and on its sub-list of patterns >= 4 bytes; span find is cross-checked with the model. \
 Non-trivial = 0 < start, end < len, and an occurrence straddles a span boundary in the original or rewritten haystack. Distinct = distinct case fingerprint.",
     assumptions: &["searches are deterministic functions of (searcher, haystack bytes, span), so earliest-mode results are compared by equality too"],
-    cases_quick: 500_000,
+    cases_quick: 220_000,
     cases_thorough: 3_000_000,
     strategy: c10_strategy,
     check: c10_check,
